@@ -818,6 +818,9 @@ class HostInterp:
             kwargs = {k: v if stores and isinstance(v, Instance) else self.as_callable(v) for k, v in kwargs.items()}
         if isinstance(fn, tuple) and fn and fn[0] == "builtin-visit":
             node = args[0]
+            if getattr(self, "concrete_visit", None) is not None:
+                # the engine asked for a real traversal (NodeTransformer semantics) instead of a marker
+                return self.concrete_visit(fn[1], node)
             if fn[1] == "visit":
                 return marker("visited", node)
             return marker("generic_visit", node)
